@@ -56,6 +56,9 @@ def _process_node(
 ) -> None:
     """Perform a DFS to find all implicit usages in subgraphs."""
     for attr in node.attributes.values():
+        if attr.is_ref():
+            # A reference attribute has no value: there is no subgraph to visit
+            continue
         if attr.type == ir.AttributeType.GRAPH:
             subgraph = attr.as_graph()
             graph_stack.append(subgraph)
